@@ -40,7 +40,7 @@ def gen_desc(rng, i):
         data.append({"t": "transform", "num": n, "fault": None})
     data.append({"t": "mode", "fault": None})
     if rng.random() < 0.5:
-        data.append({"t": "cellmod", "kind": "vol", "fault": None})
+        data.append({"t": "cellmod", "kind": "vol", "n": rng.randint(1, nc), "fault": None})
     data.append({"t": "other", "text": "nps 100", "fault": None})
     if rng.random() < 0.5:
         data.insert(rng.randrange(len(data) + 1), {"t": "other", "text": "ksrc 0 0 0", "fault": None})
@@ -97,7 +97,7 @@ def render_input(block, x):
     if t == "mode":
         return "mode n"
     if t == "cellmod":
-        return {"vol": "vol 1 1 1 1 1 1 1 1", "u": "u 1 1 1 1 1 1 1 1"}[x["kind"]]
+        return "vol " + " ".join(["1"] * x["n"])
     return x["text"]
 
 
@@ -171,7 +171,7 @@ def abstract(block, x):
     if t == "mode":
         return {"t": "mode", "fault": fault}
     if t == "cellmod":
-        return {"t": "cellmod", "kind": MOD_KINDS[x["kind"]], "cant": x["kind"] != "imp", "fault": fault}
+        return {"t": "cellmod", "kind": MOD_KINDS[x["kind"]], "cant": x["kind"] != "imp", "n": x["n"], "fault": fault}
     return {"t": "other", "fault": fault}
 
 
@@ -231,3 +231,114 @@ def corruptions(desc, rng):
                 mod("reader:" + kind, lambda d, block=block, k=k, kind=kind: d["reader"].append({"block": block, "before": k, "kind": kind}))
     mod("read-target-missing", lambda d: d.update(tail_reader=True))
     return out
+
+
+# --------------------------------------------------------------------------- the card zoo
+# Every card family of the grammar in every accepted spelling variant, one card per file in a minimal valid context.
+# The malformed stream applies the systematic word mutations (drop the last word, drop a word in the middle,
+# duplicate a word, swap two adjacent words of different kind, cut the line) at EVERY word of the card.
+# (family, variant, block, card, context flags)
+ZOO = [
+    # materials: with / without library suffix, mixed, mass fractions, keyword parameters, continuation line
+    ("material", "zaid-no-library", "data", "m2 1001 0.6667 8016 0.3333", ""),
+    ("material", "zaid-library", "data", "m2 1001.80c 0.6667 8016.80c 0.3333", ""),
+    ("material", "zaid-mixed", "data", "m2 1001.80c 2 8016 1", ""),
+    ("material", "mass-fractions-no-library", "data", "m2 1001 -0.112 8016 -0.888", ""),
+    ("material", "mass-fractions-library", "data", "m2 1001.80c -0.112 8016.80c -0.888", ""),
+    ("material", "three-nuclides-no-library", "data", "m2 92235 0.04 92238 0.96 8016 2.0", ""),
+    ("material", "params-library", "data", "m2 1001.80c 2 8016.80c 1 nlib=80c", ""),
+    ("material", "params-no-library", "data", "m2 1001 2 8016 1 nlib=80c plib=04p", ""),
+    ("material", "continuation-no-library", "data", "m2 1001 0.6667\n     8016 0.3333", ""),
+    ("material", "continuation-library", "data", "m2 1001.80c 0.6667\n     8016.80c 0.3333", ""),
+    ("material", "exponent-fraction", "data", "m2 1001 6.667e-1 8016 3.333-1", ""),
+    ("thermal", "one-law", "data", "mt1 lwtr.23t", ""),
+    ("thermal", "two-laws", "data", "mt1 lwtr.23t h-zr.20t", ""),
+    # transforms: 3, 12, 13 entries, degrees
+    ("transform", "displacement", "data", "tr2 1 2 3", ""),
+    ("transform", "full-matrix", "data", "tr2 1 2 3 1 0 0 0 1 0 0 0 1", ""),
+    ("transform", "full-matrix-direction", "data", "tr2 1 2 3 1 0 0 0 1 0 0 0 1 -1", ""),
+    ("transform", "degrees", "data", "*tr2 1 2 3 0 90 90 90 0 90 90 90 0", ""),
+    # mode, problem-level data
+    ("mode", "one", "data", "", "mode=mode n"),
+    ("mode", "two", "data", "", "mode=mode n p"),
+    ("data", "nps", "data", "nps 1000", ""),
+    ("data", "kcode", "data", "kcode 1000 1.0 10 50", ""),
+    ("data", "ksrc", "data", "ksrc 0 0 0 1 1 1", ""),
+    ("data", "sdef", "data", "sdef pos=0 0 0 erg=1.5", ""),
+    ("data", "tally", "data", "f4:n 1 2", ""),
+    ("data", "energy-bins", "data", "e4 0.1 1 10", ""),
+    ("data", "phys", "data", "phys:n 20 0 0 j j j 0", ""),
+    ("data", "cut", "data", "cut:n j 0.001", ""),
+    ("data", "shortcuts", "data", "e14 1 3i 5 2r 10 2m", ""),
+    # per-cell data in the data block (the cells of the context then carry none)
+    ("per-cell", "imp", "data", "imp:n 1 1 0", "noimp"),
+    ("per-cell", "imp-repeat", "data", "imp:n 1 1r 0", "noimp"),
+    ("per-cell", "imp-two-particles", "data", "imp:n,p 1 1 0", "noimp,mode=mode n p"),
+    ("per-cell", "vol", "data", "vol 1 2 3", ""),
+    ("per-cell", "vol-no", "data", "vol no 1 2 3", ""),
+    ("per-cell", "vol-jump", "data", "vol 1 2j", ""),
+    ("per-cell", "u", "data", "u 0 5 0", ""),
+    ("per-cell", "lat", "data", "lat j 1 j", ""),
+    # surfaces of every arity class, with pointer / modifier variants
+    ("surface", "so-1", "surfaces", "9 so 4", ""),
+    ("surface", "s-4", "surfaces", "9 s 1 2 3 4", ""),
+    ("surface", "sx-2", "surfaces", "9 sx 1 4", ""),
+    ("surface", "px-1", "surfaces", "9 px 4", ""),
+    ("surface", "p-4", "surfaces", "9 p 1 0 0 4", ""),
+    ("surface", "p-9", "surfaces", "9 p 0 0 0 1 0 0 0 1 0", ""),
+    ("surface", "cz-1", "surfaces", "9 cz 4", ""),
+    ("surface", "c/z-3", "surfaces", "9 c/z 1 2 4", ""),
+    ("surface", "kz-2", "surfaces", "9 kz 1 0.5", ""),
+    ("surface", "kz-3", "surfaces", "9 kz 1 0.5 1", ""),
+    ("surface", "k/z-4", "surfaces", "9 k/z 1 2 3 0.5", ""),
+    ("surface", "sq-10", "surfaces", "9 sq 1 1 1 0 0 0 -4 0 0 0", ""),
+    ("surface", "gq-10", "surfaces", "9 gq 1 1 1 0 0 0 0 0 0 -4", ""),
+    ("surface", "tz-6", "surfaces", "9 tz 0 0 0 5 1 1", ""),
+    ("surface", "rpp-6", "surfaces", "9 rpp -1 1 -1 1 -1 1", ""),
+    ("surface", "rcc-7", "surfaces", "9 rcc 0 0 0 0 0 2 1", ""),
+    ("surface", "sph-4", "surfaces", "9 sph 0 0 0 2", ""),
+    ("surface", "box-12", "surfaces", "9 box 0 0 0 1 0 0 0 1 0 0 0 1", ""),
+    ("surface", "rhp-9", "surfaces", "9 rhp 0 0 0 0 0 2 1 0 0", ""),
+    ("surface", "trc-8", "surfaces", "9 trc 0 0 0 0 0 2 1 0.5", ""),
+    ("surface", "transform-pointer", "surfaces", "9 1 px 4", ""),
+    ("surface", "periodic-pointer", "surfaces", "9 -8 px 4\n8 -9 px -4", ""),
+    ("surface", "reflecting", "surfaces", "*9 px 4", ""),
+    ("surface", "white", "surfaces", "+9 px 4", ""),
+    ("surface", "exponent", "surfaces", "9 so 4.5e0", ""),
+    # cells
+    ("cell", "void", "cells", "9 0 -1 2 imp:n=1", ""),
+    ("cell", "material-mass", "cells", "9 1 -2.5 -1 2 imp:n=1", ""),
+    ("cell", "material-atom", "cells", "9 1 0.05 -1 2 imp:n=1", ""),
+    ("cell", "union-parens", "cells", "9 0 (-1 : 2) -2 imp:n=1", ""),
+    ("cell", "complement-cell", "cells", "9 0 -2 #1 imp:n=1", ""),
+    ("cell", "complement-expression", "cells", "9 0 -2 #(-1) imp:n=1", ""),
+    ("cell", "vol-param", "cells", "9 0 -1 2 imp:n=1 vol=3.5", ""),
+    ("cell", "two-particles", "cells", "9 0 -1 2 imp:n,p=1", "mode=mode n p,impkey=imp:n,p"),
+    ("cell", "universe-fill", "cells", "9 0 -1 2 imp:n=1 u=5\n8 0 -2 imp:n=1 fill=5", ""),
+    ("cell", "fill-transform", "cells", "9 0 -1 2 imp:n=1 u=5\n8 0 -2 imp:n=1 fill=5 (1)", ""),
+    ("cell", "trcl", "cells", "9 0 -1 2 imp:n=1 trcl=1", ""),
+    ("cell", "tmp", "cells", "9 0 -1 2 imp:n=1 tmp=2.5e-8", ""),
+    ("cell", "continuation", "cells", "9 1 -2.5 -1\n     2 imp:n=1", ""),
+]
+
+
+def zoo_file(entry):
+    """-> (name, text): the card of the zoo entry in a minimal valid file"""
+    family, variant, block, card, flags = entry
+    fl = dict(f.split("=", 1) if "=" in f else (f, "1") for f in flags.split(",") if f)
+    impkey = fl.get("impkey", "imp:n")
+    imp = (lambda v: "") if "noimp" in fl else (lambda v: f" {impkey}={v}")
+    cells = [f"1 1 -1.0 -1{imp(1)}", f"2 0 1 -2{imp(1)}", f"3 0 2{imp(0)}"]
+    surfaces = ["1 so 5", "2 so 9"]
+    data = [fl.get("mode", "mode n"), "m1 1001.80c 2 8016.80c 1", "tr1 0 0 1"]
+    if "noimp" in fl and block == "cells":
+        raise ValueError("zoo: a cell entry needs its own importance")
+    target = {"cells": cells, "surfaces": surfaces, "data": data}[block]
+    if card:
+        target.append(card)
+    text = "\n".join([f"zoo {family} {variant}"] + cells + [""] + surfaces + [""] + data + [""]) + "\n"
+    # the lines of the card itself (the context is the same in every file: it is mutated once, in the first file)
+    lines = text.split("\n")
+    mine = card.split("\n") if card else [fl.get("mode", "mode n")]
+    own = [i for i, l in enumerate(lines) if l in mine]
+    return f"zoo:{family}:{variant}", text, own
